@@ -59,9 +59,12 @@ def norm(o):
     return json.dumps(o, sort_keys=True)
 
 
+def work_cold(second):
+    return probe([second])
+
+
 def work(item):
-    kind, name, first, second = item
-    cold = probe([second])
+    kind, name, first, second, cold = item
     warm = probe([first, second])
     res = {"kind": kind, "name": name, "first": first, "second": second, "cold": cold["outcomes"][-1], "warm": warm["outcomes"][-1], "state_after": warm["state"], "state_cold": cold["state"]}
     same = norm(res["cold"]) == norm(res["warm"])
@@ -162,11 +165,45 @@ def main():
                         continue
                     seen.add(key)
                     items.append(("key-collision", f"{sname}:{type(a).__name__}({a!r})->{type(b).__name__}({b!r})" + (":graph" if graph else ""), first, second))
+    # (2b) context histories: a call outside any block, then the same / another call in a different backend context
+    calls = [
+        {"op": "add", "desc": "a, a", "shapes": [[3], [3]], "kwargs": {}},
+        {"op": "dot", "desc": "a [b], [b] -> a", "shapes": [[2, 3], [3]], "kwargs": {}},
+        {"op": "sum", "desc": "a [b]", "shapes": [[2, 3]], "kwargs": {}},
+    ]
+    contexts = [{}, {"with_backend": "numpy.einsum"}, {"with_backend": "numpy.numpylike"}, {"kwargs_backend": "numpy.einsum"}]
+    for ci, c1 in enumerate(calls):
+        for c2 in calls if tier == "thorough" else [calls[ci], calls[(ci + 1) % len(calls)]]:
+            for ctx1 in contexts[:2] if tier == "quick" else contexts:
+                for ctx2 in contexts:
+                    if ctx1 == ctx2:
+                        continue
+
+                    def mk(c, ctx):
+                        c = json.loads(json.dumps(c))
+                        if "with_backend" in ctx:
+                            c["with_backend"] = ctx["with_backend"]
+                        if "kwargs_backend" in ctx:
+                            c["kwargs"]["backend"] = ctx["kwargs_backend"]
+                        return c
+
+                    for graph in (False, True):
+                        first, second = mk(c1, ctx1), mk(c2, ctx2)
+                        if graph:
+                            second = dict(second, graph=True)
+                        items.append(("context-history", f"{c1['op']}[{ctx1 or 'plain'}] then {c2['op']}[{ctx2 or 'plain'}]" + (":graph" if graph else ""), first, second))
     # (3) failing call followed by a valid one, and a valid call repeated after the failing one of the same key family
     for fname, failing in FAILING:
         items.append(("failure-hygiene", fname, failing, GOOD))
         items.append(("failure-hygiene", fname + ":graph", failing, dict(GOOD, graph=True)))
-    results = runner.pmap(work, items, procs=min(12, runner.nprocs()), chunksize=1)
+    # the cold outcome depends on the second call only: probe each distinct second call once
+    seconds = {}
+    for it in items:
+        seconds.setdefault(json.dumps(it[3], sort_keys=True), it[3])
+    keys = list(seconds)
+    colds = dict(zip(keys, runner.pmap(work_cold, [seconds[k] for k in keys], procs=min(16, runner.nprocs()), chunksize=1)))
+    items = [it + (colds[json.dumps(it[3], sort_keys=True)],) for it in items]
+    results = runner.pmap(work, items, procs=min(16, runner.nprocs()), chunksize=1)
     status = collections.Counter()
     samples, nontrivial = [], set()
     for it, r in zip(items, results):
